@@ -122,6 +122,11 @@ std::string describe_live(size_t max) {
     return o;
 }
 
+size_t live_blocks_of_step(int step) {
+    size_t n = 0;
+    for (auto &kv : g_ledger) if (kv.second.live && kv.second.step == step) n++;
+    return n;
+}
 const char *classify_address(const void *p) {
     if (!in_arena(p)) return "not-in-custom-arena";
     uintptr_t a = (uintptr_t)p;
